@@ -220,7 +220,33 @@ def r12_d(run, fx):
         run.fail("R12-D", "instance-result", "instance has a success result that does not come from FontBuilderWithHead::data: %s" % others, "%s:%s" % (b.file, b.line))
 
 
+def r12_s(run, fx):
+    rule = "R12-S"
+    run.rule(rule, "variation tables that declare a record size are read with that size as the array stride: MVAR valueRecordSize, fvar axisSize "
+                   "(read_array_stride whose stride operand derives from the size field read from the table)")
+    for path, what in (("<tables::variable_fonts::mvar::MvarTable<'_> as binary::read::ReadBinary>::read", "valueRecordSize"),
+                       ("<tables::variable_fonts::fvar::FvarTable<'b> as binary::read::ReadBinary>::read", "axisSize")):
+        b = fx.body(path)
+        if b is None:
+            run.anchor_missing(rule, path)
+            continue
+        prov = sym.Prov(b)
+        sites = [(bi, t) for bi, t in b.calls() if callee_is(t, "ReadCtxt::<'a>::read_array_stride")]
+        if not sites:
+            run.fail(rule, "stride:%s:none" % what, "%s no longer reads its records with read_array_stride: the declared %s is ignored" % (path, what), "%s:%s" % (b.file, b.line))
+            continue
+        for bi, t in sites:
+            st = prov.op(t["args"][2])
+            from_read = any(x[0] == "call" and (x[1] or "").endswith("read_u16be") for x in sym.walk(st))
+            if from_read:
+                run.ok(rule, "%s: stride is the %s read from the table" % (path.split("::")[-3], what))
+            else:
+                run.fail(rule, "stride:%s" % what, "the stride of the record array in %s is %s, not the %s read from the table" % (path, sym.show(sym.strip(st))[:60], what), b.loc(t))
+
+
 def check(run, fx, tier, floors=True):
+    if floors or fx.body("<tables::variable_fonts::mvar::MvarTable<'_> as binary::read::ReadBinary>::read") is not None:
+        r12_s(run, fx)
     r12_p(run, fx)
     r12_t(run, fx, floors)
     r12_v(run, fx)
